@@ -40,6 +40,25 @@ def replay_skew(tag, rec):
     return out, {'hash': key, 'n': n, 'sample': {'n': n, 's': '%d/%d' % (p, q), 'spec_weights': ['%d/%d' % tuple(x) for x in rec['dist']][:4]}}
 
 
+def growth_sampling(rep, seed):
+    """Growth (statistical, recorded under X, never a verdict): the weights are what the generator samples first
+    choices with.  6000 one-entry lists over 3 agents with skew 3: sorted frequencies ~ (1/6, 2/6, 3/6)."""
+    import random
+    import numpy as np
+    impl.ensure_repo()
+    from matchingproblems.generator import generator_shared as gs
+    random.seed(seed)
+    np.random.seed(seed % (2 ** 32))
+    try:
+        lists, _ = gs.create_pref_lists_original(6000, 3, 1, 1, 0.0, 3.0)
+        cnt = sorted(sum(1 for l in lists if int(l[0]) == a) / 6000.0 for a in (1, 2, 3))
+        ok = all(abs(c - e) < 0.035 for c, e in zip(cnt, (1 / 6, 2 / 6, 3 / 6)))
+        what = 'sorted first-choice frequencies %s, weights (1/6, 2/6, 3/6)' % (cnt,)
+    except BaseException as e:  # noqa
+        ok, what = False, '%s: %s' % (type(e).__name__, e)
+    rep.clause('X.first_choice_frequencies_follow_weights', ok, key='sampling', what=what, own=False)
+
+
 def main(tier, seed):
     q = tier == 'quick'
     rep = common.Report('C17', tier, seed)
@@ -59,5 +78,6 @@ def main(tier, seed):
         pool.close()
     if res['exports'] != N * P * Q:
         common.machinery_exit('C17', 'exported %d, expected %d' % (res['exports'], N * P * Q))
+    growth_sampling(rep, seed)
     rep.assumptions = ['numeric equality up to relative tolerance 1e-9 (the function returns floats)']
     return rep.finish(exhaustive=True, rule='all n in 1..%d and skews p/q with p in 1..%d, q in 1..%d (s<1, s=1, s>1); non-trivial = n >= 2' % (N, P, Q))
